@@ -329,6 +329,7 @@ fn history(kind: &str, lang_id: &str, b: &zoo::Built, seed: u64, thorough: bool,
         }
     }
     let nops = if kind == "huge" { 3 } else { 14 };
+    let mut extreme = false;
     for step in 0..nops {
         if trees.is_empty() {
             break;
@@ -340,7 +341,8 @@ fn history(kind: &str, lang_id: &str, b: &zoo::Built, seed: u64, thorough: bool,
                 trees.push(c);
             }
             1 | 2 => {
-                let e = if kind == "offsets" || rng.chance(1, 4) {
+                let e = if (kind == "offsets" || rng.chance(1, 4)) && std::env::var("C07_NO_EXTREME").is_err() {
+                    extreme = true;
                     extreme_edit(&mut rng, cur.len())
                 } else {
                     let alpha: Vec<&[u8]> = vec![b"a", b"(", b")", b" ", b"1", b"\n", b"+"];
@@ -374,7 +376,7 @@ fn history(kind: &str, lang_id: &str, b: &zoo::Built, seed: u64, thorough: bool,
                 }
             }
             6 => {
-                if trees.len() >= 2 {
+                if trees.len() >= 2 && (!extreme || std::env::var("C07_CHANGED_RANGES_AFTER_EXTREME").is_ok()) {
                     let j = (i + 1) % trees.len();
                     let _ = trees[i].changed_ranges(&trees[j]).count();
                     let _ = trees[i].included_ranges();
@@ -499,7 +501,7 @@ fn main() {
             specs.extend(c.lines().filter(|l| !l.trim().is_empty() && !l.starts_with('#')).map(|s| s.to_string()));
         }
         let mut rng = Rng::new(seed_from_env());
-        let langs = ["arith", "lst", "stmt", "jsonish", "fx_external_tokens", "fx_inline_rules", "fx_dynamic_precedence", "fx_readme_grammar"];
+        let langs = ["arith", "lst", "stmt", "jsonish", "fx_inline_rules", "fx_dynamic_precedence", "fx_readme_grammar", "fx_aliased_rules"];
         let per = if thorough { 120 } else { 14 };
         for lang in langs {
             for kind in KINDS {
@@ -525,13 +527,14 @@ fn main() {
                 let b = langs_cache.entry(lang.to_string()).or_insert_with(|| zoo::load(lang).ok());
                 let Some(b) = b.as_ref() else { continue };
                 let cid = format!("h{i}");
+                writeln!(out, "spec {cid} hist {kind} {lang} {seed}").unwrap();
+                out.flush().unwrap();
                 let before = LIVE.load(Ordering::SeqCst);
                 let a0 = ALLOCS.load(Ordering::Relaxed);
                 let mut dump = None;
                 history(kind, lang, b, seed.parse().unwrap(), thorough, &mut dump);
                 let delta = LIVE.load(Ordering::SeqCst) - before;
                 let hasext = b.grammar_json.contains("\"externals\"") && !b.grammar_json.contains("\"externals\": []") && !b.grammar_json.contains("\"externals\":[]");
-                writeln!(out, "spec {cid} hist {kind} {lang} {seed}").unwrap();
                 writeln!(out, "hist {cid} kind={kind} lang={lang} allocs={} live_delta={delta}", ALLOCS.load(Ordering::Relaxed) - a0).unwrap();
                 if let Some(d) = dump {
                     writeln!(out, "dump {cid} hasext={}", hasext as u8).unwrap();
@@ -539,6 +542,7 @@ fn main() {
                     writeln!(out, "enddump").unwrap();
                 }
                 nhist += 1;
+                out.flush().unwrap();
             }
             ["arr", seed, n] => arr_case(&mut out, &cunit, &format!("a{i}"), seed.parse().unwrap(), n.parse().unwrap()),
             ["inl", seed, n] => inl_case(&mut out, &cunit, &format!("i{i}"), seed.parse().unwrap(), n.parse().unwrap()),
